@@ -272,6 +272,41 @@ pub fn expr_depth2() -> Vec<String> {
     v
 }
 
+/// String-literal family: every body of ≤2 pieces over {each quote character after a backslash run of
+/// length 0..3, `\\z`+blanks, `\\n`, `\\x41`, `\\u{41}`, a backslash pair, a letter} inside each of the
+/// four delimiters (`"`, `'`, `[[ ]]`, `[==[ ]==]`), in each of four syntactic positions. Bodies that
+/// end the literal early give invalid programs (they must come back unchanged).
+pub fn string_literal_family() -> Vec<String> {
+    let mut pieces: Vec<String> = Vec::new();
+    for q in ['"', '\''] {
+        for run in 0..=3 {
+            pieces.push(format!("{}{q}", "\\".repeat(run)));
+        }
+    }
+    for p in ["\\z  ", "\\n", "\\x41", "\\u{41}", "\\\\", "a"] {
+        pieces.push(p.to_string());
+    }
+    let mut bodies: Vec<String> = vec![String::new()];
+    bodies.extend(pieces.iter().cloned());
+    for a in &pieces {
+        for b in &pieces {
+            bodies.push(format!("{a}{b}"));
+        }
+    }
+    let delims = [("\"", "\""), ("'", "'"), ("[[", "]]"), ("[==[", "]==]")];
+    let mut out = Vec::new();
+    for body in &bodies {
+        for (open, close) in delims {
+            let lit = format!("{open}{body}{close}");
+            out.push(format!("local s = {lit}\n"));
+            out.push(format!("f({lit})\n"));
+            out.push(format!("f {lit}\n"));
+            out.push(format!("t = {{ [ {lit} ] = 1 }}\n"));
+        }
+    }
+    out
+}
+
 /// the bundled std library sources (read from the working tree at run time)
 pub fn std_files() -> Vec<(String, String)> {
     let root = vcore::repo_root().join("crates/emmylua_code_analysis/resources/std");
@@ -1030,20 +1065,59 @@ fn normalise_chars(text: &str, fails: &dyn Fn(&str) -> bool) -> String {
     cur.iter().collect()
 }
 
-/// Minimise a failing program given as parts (alphabet items / lines): drop parts, then windows of
-/// characters, while `fails(text)` holds. Memoised on the part-reduced text; deterministic.
-pub fn minimise_cached(key_prefix: &str, parts: &[String], fails: impl Fn(&str) -> bool) -> String {
-    let kept = vcore::minimise_seq(parts, |ps| fails(&ps.concat()));
-    let t1: String = kept.concat();
-    let key = format!("{key_prefix}\u{0}{t1}");
-    if let Some(m) = MIN_CACHE.lock().unwrap().as_ref().and_then(|m| m.get(&key).cloned()) {
+/// Part-level reduction (alphabet items / lines): greedy from the left — drop part i if the rest still
+/// fails — which is what `vcore::minimise_seq` does. For long part lists (std files) the same greedy
+/// walk is taken in blocks: at position i a block of m parts is dropped at once and m doubles while
+/// that succeeds (whenever a failing input stays failing when parts are added back, this removes
+/// exactly what the one-at-a-time walk removes, with far fewer formatter runs); the one-at-a-time
+/// pass to a fixpoint follows for every input.
+pub fn reduce_parts(parts: &[String], fails: &dyn Fn(&str) -> bool) -> String {
+    let mut cur: Vec<String> = parts.to_vec();
+    if cur.len() > 32 {
+        let mut i = 0;
+        let mut m = 16usize;
+        while i < cur.len() {
+            let take = m.min(cur.len() - i);
+            let mut cand = cur.clone();
+            cand.drain(i..i + take);
+            if fails(&cand.concat()) {
+                cur = cand;
+                m *= 2;
+            } else if take > 1 {
+                m = take / 2;
+            } else {
+                i += 1;
+                m = 2;
+            }
+        }
+    }
+    vcore::minimise_seq(&cur, |ps| fails(&ps.concat())).concat()
+}
+
+pub fn min_cache_get(key: &str) -> Option<String> {
+    MIN_CACHE.lock().unwrap().as_ref().and_then(|m| m.get(key).cloned())
+}
+
+/// Character-level minimisation of a part-reduced text (pure function of its arguments; memoised
+/// under `key`). Formatter runs on identical candidate texts are answered from a local memo.
+pub fn minimise_text_cached(key: &str, t1: &str, fails: &dyn Fn(&str) -> bool) -> String {
+    if let Some(m) = min_cache_get(key) {
         return m;
     }
     if std::env::var("ENG_FMT_RAW").is_ok() {
-        return t1; // debugging aid: stop after part-level reduction
+        return t1.to_string(); // debugging aid: stop after part-level reduction
     }
-    let min = normalise_chars(&minimise_chars(&substitute_subtrees(&minimise_chars(&t1, &fails), &fails), &fails), &fails);
-    MIN_CACHE.lock().unwrap().get_or_insert_with(HashMap::new).insert(key, min.clone());
+    let memo: std::cell::RefCell<HashMap<String, bool>> = std::cell::RefCell::new(HashMap::new());
+    let fails = |t: &str| -> bool {
+        if let Some(&r) = memo.borrow().get(t) {
+            return r;
+        }
+        let r = fails(t);
+        memo.borrow_mut().insert(t.to_string(), r);
+        r
+    };
+    let min = normalise_chars(&minimise_chars(&substitute_subtrees(&minimise_chars(t1, &fails), &fails), &fails), &fails);
+    MIN_CACHE.lock().unwrap().get_or_insert_with(HashMap::new).insert(key.to_string(), min.clone());
     min
 }
 
